@@ -193,6 +193,113 @@ def shared_pairs(result: Any, operand: Any) -> List[Tuple[str, str]]:
 
 
 # --------------------------------------------------------------------------
+# documented in-place operations (round 3: histories that fork)
+# --------------------------------------------------------------------------
+
+def _new_value(cur):
+    """a value different from ``cur`` of the same kind (bool stays bool, integers stay integers)"""
+    if isinstance(cur, (bool, np.bool_)):
+        return not bool(cur)
+    try:
+        c = float(cur)
+    except Exception:  # noqa: BLE001
+        c = 0.0
+    if not np.isfinite(c) or abs(c) > 1e6:
+        return 3.0
+    return (int(c) + 7) if float(c).is_integer() else c + 7.25
+
+
+def poke(obj) -> Optional[str]:
+    """Change ``obj`` through an operation *documented* as in-place (an item assignment; for a Kruskal tensor a
+    re-parameterisation) - never by touching an attribute.  Returns a label of what was done, or None if the object
+    has no such operation, is empty, or the operation left its state as it was / raised."""
+    before = snap(obj)
+    tried = []
+    try:
+        if type(obj) is ttb.tensor and obj.data.size:
+            sub, first = tuple(int(n) - 1 for n in obj.shape), tuple(0 for _ in obj.shape)
+
+            def both():
+                # the last and the first entry (a result that is a view of part of the data holds at least one of them
+                # whenever it holds a corner)
+                obj.__setitem__(sub, _new_value(obj.data[sub]))
+                if first != sub:
+                    obj.__setitem__(first, _new_value(obj.data[first]))
+
+            tried.append(("setitem", both))
+        elif type(obj) is ttb.sptensor and len(obj.shape) and all(int(n) >= 1 for n in obj.shape):
+            sub = tuple(int(n) - 1 for n in obj.shape)
+            cur = obj[sub] if obj.subs.size else 0.0
+            tried.append(("setitem", lambda: obj.__setitem__(sub, float(_new_value(cur)) or 5.0)))
+        elif type(obj) is ttb.ktensor and obj.weights.size and all(f.size for f in obj.factor_matrices):
+            tried.append(("normalize", lambda: obj.normalize()))
+            tried.append(("redistribute", lambda: obj.redistribute(0)))
+            tried.append(("arrange", lambda: obj.arrange(permutation=np.arange(obj.ncomponents)[::-1].copy())))
+        elif type(obj) is ttb.tenmat and obj.data.size:
+            key = (obj.data.shape[0] - 1, obj.data.shape[1] - 1)
+            tried.append(("setitem", lambda: obj.__setitem__(key, _new_value(obj.data[key]))))
+    except Exception:  # noqa: BLE001
+        return None
+    for name, f in tried:
+        try:
+            f()
+        except Exception:  # noqa: BLE001
+            continue
+        if snap_diff(before, snap(obj)) is not None:
+            return name
+    return None
+
+
+def _pokeable_parts(obj, path=""):
+    """(path, object) for every object reachable through lists / tuples that has a documented in-place operation"""
+    if isinstance(obj, (ttb.tensor, ttb.sptensor, ttb.ktensor, ttb.tenmat)):
+        return [(path, obj)]
+    if isinstance(obj, (list, tuple)):
+        out = []
+        for i, v in enumerate(obj):
+            out += _pokeable_parts(v, f"{path}[{i}]")
+        return out
+    return []
+
+
+def fork_step(ctx, what: str, operands: Dict[str, Any], result: Any, inplace: Optional[str]) -> None:
+    """Class 9 of round 3: the result and the operands of an operation are all alive; one of them is then changed
+    through a *documented in-place operation* (item assignment; normalize / redistribute / arrange of a Kruskal tensor),
+    the others are judged again.  Run only when the storage clauses found nothing (a reported alias would only be
+    reported twice); operands that are one object, or views of one another, by construction of the case are not judged
+    against each other."""
+    names = [n for n in operands if n != inplace]
+
+    def independent(a, b):
+        return a is not b and not shared_pairs(a, b) and not shared_pairs(b, a)
+
+    # (a) in-place operation on an operand: the result and the other operands stay as they are
+    for n in names:
+        for path, o in _pokeable_parts(operands[n]):
+            rs = snap(result)
+            others = {m: snap(operands[m]) for m in names if m != n and independent(operands[m], operands[n])}
+            lab = poke(o)
+            if lab is None:
+                continue
+            ctx.label("fork:operand-" + lab)
+            d = snap_diff(rs, snap(result))
+            ctx.check(d is None, f"result-changed-by-in-place-op-on:{n}", f"{what}: {n}{path}.{lab}() then result: {d}")
+            for m, sm in others.items():
+                d = snap_diff(sm, snap(operands[m]))
+                ctx.check(d is None, f"operand-changed-by-in-place-op-on:{n}", f"{what}: {n}{path}.{lab}() then {m}: {d}")
+    # (b) in-place operation on the result: the operands stay as they are
+    for path, r in _pokeable_parts(result):
+        os_ = {n: snap(operands[n]) for n in names}
+        lab = poke(r)
+        if lab is None:
+            continue
+        ctx.label("fork:result-" + lab)
+        for n, sn in os_.items():
+            d = snap_diff(sn, snap(operands[n]))
+            ctx.check(d is None, f"operand-changed-by-in-place-op-on-result:{n}", f"{what}: result{path}.{lab}() then {n}: {d}")
+
+
+# --------------------------------------------------------------------------
 # the generic oracle
 # --------------------------------------------------------------------------
 
@@ -284,6 +391,9 @@ def check_op(
     for n in others:
         pairs = shared_pairs(result, operands[n])
         ctx.check(not pairs, f"aliased:{n}", f"{what}: result{pairs[0][0]} shares memory with {n}{pairs[0][1]}" if pairs else "")
+    # (2a') histories that fork (round 3): documented in-place operations instead of raw writes
+    if not ctx.violations:
+        fork_step(ctx, what, operands, result, inplace)
     # (2b) behavioural: write to each operand -> result unchanged
     rs = snap(result)
     for n in others:
